@@ -109,6 +109,49 @@ def main(tier, seed):
                                                "op": op})
                         if size <= 10 and pre not in ("remove", "update"):
                             coq_cases.append((auto, hist, op, [l for l in labs if l not in NOEFFECT], rec["after"] or []))
+    # inserts that RAISE part-way (a non-Point inside insert_multiple; a lone non-Point): whatever the call does about the points it had
+    # already stored, the file only grows - the previous content stays a byte-for-byte prefix - and no existing data is read
+    raising_runs = 0
+    for pre in (None, "remove", "update", "reopen", "get", "remove_then_read"):
+        for auto in (True, False):
+            for size in (0, 6):
+                if size == 0 and pre:
+                    continue
+                g = dbgen.Gen(seed + 7000 + raising_runs, {})
+                g.ids = 1
+                pts = g.points_batch(size, in_order=True) if size else []
+                hist = [("insert", pts, None, "multiple")] if pts else []
+                one = ("S", "tags", [("k", "id")], ("cmp", "==", ("s", "1")))
+                if pre in ("remove", "remove_then_read"):
+                    hist.append(("remove", one, None))
+                if pre == "remove_then_read":
+                    hist.append(("count", one, None))
+                if pre == "update":
+                    hist.append(("update", one, {"tags": ("static", {"u": "x"})}, None))
+                if pre == "reopen":
+                    hist.append(("reopen", auto))
+                if pre == "get":
+                    hist.append(("get", one, None))
+                t_last = max([p["time"] for p in pts], default=dbgen.T0)
+                good = [g.point(t_last + (j + 1) * dbgen.SEC) for j in range(3)]
+                for bad_at in (1, 2, 0):
+                    batch = list(good)
+                    batch.insert(bad_at, None)
+                    op = ("insert", batch, None, "multiple")
+                    rec = iotie.recorded_run(tf, str(ck.work / f"rrec{raising_runs}"), hist, op, auto)
+                    raising_runs += 1
+                    bb, ab = rec["before_bytes"] or b"", rec["after_bytes"] or b""
+                    ev = rec["events"]
+                    why = None
+                    if rec["out"][0] != "raise":
+                        why = f"insert_multiple with a non-Point inside returned {rec['out']}"
+                    elif not ab.startswith(bb):
+                        why = "an insert that raised part-way left a file of which the previous content is not a byte-for-byte prefix"
+                    elif any(is_read_call(e) for e in ev):
+                        why = "insert read existing data / touched another file: " + str([f"{e[1]}.{e[2]}{e[3] or ''}" for e in ev if is_read_call(e)][:4])
+                    if why and len(direct_bad) < 4:
+                        direct_bad.append({"kind": "failing-input", "why": why, "database_size": size, "auto_index": auto, "preceding_operation": pre, "history": hist, "op": op,
+                                           "bytes_before": len(bb), "bytes_after": len(ab), "calls": [f"{e[1]}.{e[2]}" for e in ev]})
     # the number of calls must not depend on the size
     for key, d in per_point.items():
         if len(set(d.values())) > 1 and len(direct_bad) < 4:
@@ -149,7 +192,7 @@ def main(tier, seed):
             "run-time proxies harness/ioproxy.py on open/NamedTemporaryFile/shutil/os inside tinyflux.storages",
             "Print Assumptions: " + json.dumps(b["assumptions"])],
         "theorems": b["theorems"], "forbidden_tokens_found": b["forbidden"],
-        "evaluations": len(cases), "distinct_nontrivial": len({json.dumps(c, sort_keys=True) for c in cases if c["size"] > 0}),
+        "evaluations": len(cases) + raising_runs, "inserts_raising_part_way": raising_runs, "distinct_nontrivial": len({json.dumps(c, sort_keys=True) for c in cases if c["size"] > 0}),
         "rule": "one insert / insert_multiple(3) recorded through the proxies at database sizes " + str(sizes) + " x auto_index on/off x in-order/out-of-order "
                 "x after an early-terminating get/contains or len; checked directly: byte prefix, no read-type call and no other file touched, same number "
                 "of calls at every size, file decodes to old + new; non-trivial = the database is non-empty before the insert",
